@@ -78,7 +78,7 @@ pub fn check_case(text: &str, kind: Kind, mock_blobs: bool) -> CaseResult {
     let r1 = match r1 {
         Err(p) => {
             out.outcome = "compile-panic".into();
-            out.violations.push((format!("compile-panic:{}", p.site()), json!({"panic": p.summary()})));
+            out.violations.push((format!("compile-panic:{}", panic_site(&p)), json!({"panic": p.summary()})));
             return out;
         }
         Ok(r) => r,
@@ -86,7 +86,7 @@ pub fn check_case(text: &str, kind: Kind, mock_blobs: bool) -> CaseResult {
     match r2 {
         Ok(r2) if r2 == r1 => {}
         Ok(_) => out.violations.push(("nondeterministic:compile".into(), json!({}))),
-        Err(p) => out.violations.push((format!("compile-panic:{}", p.site()), json!({"panic": p.summary(), "second_call_only": true}))),
+        Err(p) => out.violations.push((format!("compile-panic:{}", panic_site(&p)), json!({"panic": p.summary(), "second_call_only": true}))),
     }
     let e = match r1 {
         Ok(_) => {
@@ -113,7 +113,7 @@ pub fn check_case(text: &str, kind: Kind, mock_blobs: bool) -> CaseResult {
                 let sig = if is_cr_specific(text, kind, mock_blobs, style) {
                     "diagnostics-panic:crlf-line-endings".to_string()
                 } else {
-                    format!("diagnostics-panic:{}", p.site())
+                    format!("diagnostics-panic:{}", panic_site(&p))
                 };
                 out.violations.push((sig, json!({"panic": p.summary(), "style": sname, "error": format!("{e:?}")})));
             }
@@ -143,7 +143,7 @@ pub fn check_case(text: &str, kind: Kind, mock_blobs: bool) -> CaseResult {
                 let sig = if is_cr_specific(text, kind, mock_blobs, CompileErrorDiagnosticsStyle::PlainText) {
                     "diagnostics-panic:crlf-line-endings".to_string()
                 } else {
-                    format!("diagnostics-panic:{}", p.site())
+                    format!("diagnostics-panic:{}", panic_site(&p))
                 };
                 out.violations.push((sig, json!({"panic": p.summary(), "entry": "compile_any_manifest_with_pretty_error"})));
             }
@@ -334,7 +334,36 @@ fn mutate_tokens(rng: &mut Rng, s: &str, n: usize) -> String {
             toks.push(vocab_token(rng));
         }
         let pos = rng.usize_below(toks.len());
-        match rng.below(6) {
+        match rng.below(8) {
+            6 | 7 => {
+                // edit inside a string literal (contents of addresses, decimals, hex, ids ...):
+                // wide characters, truncation, doubling
+                let lits: Vec<usize> = (0..toks.len()).filter(|i| toks[*i].starts_with('"') && toks[*i].chars().count() >= 2).collect();
+                if let Some(&li) = lits.get(rng.usize_below(lits.len().max(1))) {
+                    let mut cs: Vec<char> = toks[li].chars().collect();
+                    let inner = cs.len() - 1;
+                    let at = 1 + rng.usize_below(inner.max(1));
+                    match rng.below(5) {
+                        0 | 1 => cs.insert(at.min(cs.len() - 1), *rng.pick(WIDE_CHARS)),
+                        2 => {
+                            if at < cs.len() - 1 {
+                                cs[at] = *rng.pick(WIDE_CHARS)
+                            }
+                        }
+                        3 => {
+                            cs.truncate(at);
+                            cs.push('"');
+                        }
+                        _ => {
+                            let w = *rng.pick(WIDE_CHARS);
+                            for k in (1..cs.len() - 1).rev().step_by(7) {
+                                cs.insert(k, w);
+                            }
+                        }
+                    }
+                    toks[li] = cs.into_iter().collect();
+                }
+            }
             0 => {
                 toks.remove(pos);
             }
